@@ -15,7 +15,7 @@ From Delb.XPath Require Import Ast Nav FnLang.
 From Delb.Gen Require Import GenXEval.
 
 Inductive exn := XPathEvaluationError | AttributeError | AssertionError | TypeError | NotImplementedError | OtherError
-  | ValueError | AmbiguousTreeError.     (* the two documented refusals of fetch_or_create_by_xpath (C15) *)
+  | ValueError | AmbiguousTreeError | InvalidOperation.     (* the documented refusals of fetch_or_create_by_xpath (C15) *)
 Inductive fault := FRejected (e : exn) | FCrash (e : exn).
 Inductive res (A : Type) := Ok (a : A) | Fault (f : fault).
 Arguments Ok {A} a.
@@ -117,12 +117,6 @@ Definition py_lt (a b : pyval) : res bool :=
   | PStr x, PStr y => Ok (str_ltb x y)
   | _, _ => match py_int a, py_int b with Some x, Some y => Ok (N.ltb x y) | _, _ => Crash TypeError end
   end.
-(* operator.and_ / operator.or_ are the bitwise operators *)
-Definition py_bitop (fb : bool -> bool -> bool) (fn : N -> N -> N) (a b : pyval) : res pyval :=
-  match a, b with
-  | PBool x, PBool y => Ok (PBool (fb x y))
-  | _, _ => match py_int a, py_int b with Some x, Some y => Ok (PInt (fn x y)) | _, _ => Crash TypeError end
-  end.
 Definition py_binop (o : binop) (a b : pyval) : res pyval :=
   match o with
   | OpEq => Ok (PBool (py_eq a b))
@@ -131,14 +125,17 @@ Definition py_binop (o : binop) (a b : pyval) : res pyval :=
   | OpGt => bind (py_lt b a) (fun r => Ok (PBool r))
   | OpLe => bind (py_lt b a) (fun r => Ok (PBool (negb r)))
   | OpGe => bind (py_lt a b) (fun r => Ok (PBool (negb r)))
-  | OpAnd => py_bitop andb N.land a b
-  | OpOr => py_bitop orb N.lor a b
+  (* and / or: both operands are evaluated (no short circuit), converted with bool(), then combined *)
+  | OpAnd => Ok (PBool (truthy a && truthy b))
+  | OpOr => Ok (PBool (truthy a || truthy b))
   end.
 
 (* node.attributes.get((ns, local)): TagAttributes._etree_key sends a namespace equal to the element's in-scope
    default namespace to the plain key *)
 Definition delb_attr (p : payload) (ns local : str) : option str :=
-  let plain := null ns || match in_scope_default p with Some d => str_eqb d ns | None => false end in
+  (* ... unless the store has an entry {ns}local (fix bde0777) *)
+  let plain := null ns || (match in_scope_default p with Some d => str_eqb d ns | None => false end
+                           && match get_attr ns local (payload_attrs p) with Some _ => false | None => true end) in
   get_attr (if plain then [] else ns) local (payload_attrs p).
 Definition attr_ns (m : nsmap) (p : option str) : str :=           (* context.namespaces.get(prefix, "") *)
   match p with Some q => opt_default [] (ns_get m q) | None => [] end.
@@ -211,11 +208,13 @@ Fixpoint d_expr (m : nsmap) (e : expr) (c : nd) (pos size : N) {struct e} : res 
   end.
 
 (* ---------------------------------------------------------------- LocationStep._evaluate *)
+(* a predicate result that is a number (int, not bool) selects the candidate at that position (fix 6531d56) *)
+Definition keep_py (v : pyval) (pos : N) : bool := match v with PInt n => N.eqb n pos | _ => truthy v end.
 Fixpoint filter_pred (m : nsmap) (p : expr) (size pos : N) (cs : list nd) : res (list nd) :=
   match cs with
   | [] => Ok []
   | c :: r => bind (d_expr m p c pos size)
-                (fun v => bind (filter_pred m p size (pos + 1) r) (fun r' => Ok (if truthy v then c :: r' else r')))
+                (fun v => bind (filter_pred m p size (pos + 1) r) (fun r' => Ok (if keep_py v pos then c :: r' else r')))
   end.
 Fixpoint apply_preds (m : nsmap) (ps : list expr) (cs : list nd) : res (list nd) :=
   match ps with
